@@ -325,7 +325,10 @@ func (e *endpointManager) addAliveEp(ep endpoint.Endpoint) {
 	// the registry may have dropped the endpoint while its probe was in flight
 	listed := false
 	for _, epf := range e.activeEpf {
-		if endpoint.Tars2endpoint(epf).Key == ep.Key {
+		if cur := endpoint.Tars2endpoint(epf); cur.Key == ep.Key {
+			// the adapter still holds the descriptor it was created with; the
+			// registry may have changed its weight or weight type since
+			ep = cur
 			listed = true
 			break
 		}
